@@ -1004,7 +1004,11 @@ class C19(Check):
         p = os.path.join(C.LEAN, "MT", "Generated", "tables.json")
         t = json.load(open(p))
         cli = {r["sel"]: r for r in t["cli"]}
-        for wint in (True, False):
+        # a block whose guard the translator did not recognise is missing from the table (lost anchor `pyx block`: the
+        # obligations fail): the table then says nothing about the code, and the failing-input search is the simulation below
+        complete = t.get("pyxBlockCount") == len(t["pyx"])
+        self.cov["pyx_table_complete"] = complete
+        for wint in ((True, False) if complete else ()):
             for directed in (True, False):
                 for assort in (True, False):
                     for wfile in (True, False):
@@ -1046,6 +1050,17 @@ class C19(Check):
         if found is not None:
             self.cov["evaluations"] += 48
             self.monitor("prologue runs (3 files x 16 argument combinations, numpy stand-in)", 48)
+        # ... and the dispatch itself, run as Python: flags spelled True/False, 1/0, None; file name None, "", a name
+        try:
+            found2 = pyxsim.search_dispatch(open(os.path.join(C.REPO, "python", "package", "multitensor.pyx")).read())
+        except Exception:
+            found2 = None
+        self.cov["dispatch_simulated"] = found2 is not None
+        if found2 is not None:
+            self.cov["evaluations"] += 100
+            self.monitor("dispatch runs (16 combinations x spellings of the flags and of the file name, numpy stand-in)", 100)
+        for f in (found2 or [])[:3]:
+            self.violate("python-dispatch-run", "run(%s): %s" % (", ".join("%s=%s" % (k, v) for k, v in f["call"].items() if k != "adjacency_file"), f["what"]), f)
         for f in (found or [])[:3]:
             self.violate("python-prologue", "run(%s): %s" % (", ".join("%s=%r" % (k, v) for k, v in f["call"].items() if k not in ("adjacency_file", "init_affinity_file")), f["what"]), f)
         self.cli_agreement(t)
